@@ -12,7 +12,7 @@ Clauses (each tied to a sentence of the property statement):
 """
 from nrfsim.core import SimAbort, stream, MS, US
 from nrfsim.harness import Result
-from nrfsim.mcu import World, random_mcu_knobs
+from nrfsim.mcu import World, random_mcu_knobs, Injector
 from checks import common
 from checks.common import hx, unhx
 
@@ -32,7 +32,7 @@ ASSUMPTIONS = ["chip/air model decisions M1, M3, M4, M8 (DESIGN.md section 3)",
 CLAUSES = {"rejects": "ValueError before anything reaches the radio", "loaded": "bytes uploaded to the TX FIFO",
            "delivered": "byte-for-byte, exactly once, in order, right pipe", "result": "premise: working link",
            "unaliased": "caller's buffer object is never modified"}
-PROBES = ["pid_duplicate_dropped", "send_on_dead_medium", "retargeted", "burst_payloads_refused", "turned_with_unread_payloads", "ack_payloads_armed", "healing_send_succeeded"]   # premise_broken_by_loss_pattern is rare by design
+PROBES = ["pid_duplicate_dropped", "send_on_dead_medium", "retargeted", "burst_payloads_refused", "turned_with_unread_payloads", "ack_payloads_armed", "healing_send_succeeded", "crc_changed_at_run_time", "readdressed_under_traffic"]   # premise_broken_by_loss_pattern is rare by design
 SHRINK_KEYS = ("ops", "faults")
 CHUNK = 40
 
@@ -167,6 +167,25 @@ def make(i, base_seed, tier):
                     op["fr"] = yr.choice([0, 1, 1, 2])
                     if op["fr"] and yr.random() < 0.7:
                         op["heal_ms"] = yr.choice([1, 5, 20, 35, 50])
+        elif k_ < 0.55 and cfg["tx"]["cls"] == "full" and cfg["rx"]["cls"] == "full":
+            # run-time re-configuration: both sides change the CRC length while in their roles; afterwards only one of them leaves
+            # and re-enters its mode (a receiver that stops listening for a moment, a transmitter that listens for a moment)
+            for _ in range(yr.randint(1, 2)):
+                ops.insert(yr.randint(0, len(ops)), {"op": "reconf", "crc": yr.choice([1, 2] if cfg["auto_ack"] else [0, 1, 2]),
+                                                     "excursion": yr.choice(["rx", "tx", "rx", "tx", None]), "order": yr.choice(["tr", "rt"])})
+        elif k_ < 0.68 and cfg["auto_ack"] and cfg["rx"]["cls"] == "full" and "alt" not in cfg:
+            # run-time re-addressing: the listening receiver opens a closed pipe (which still holds an older address) on a new address
+            # while a third radio keeps transmitting to the old one; afterwards that radio sends to the new address
+            p1_ = unhx(cfg["p1"])
+            free = [b_ for b_ in range(256) if b_ not in (unhx(cfg["addr"])[0], p1_[0])]
+            q = yr.choice([q_ for q_ in range(1, 6) if q_ != cfg["pipe"] and not (q_ == 1 and cfg["pipe"] >= 2)])
+            l0, l1 = yr.sample(free, 2)
+            if q >= 2:
+                old, new = bytes([l0]) + p1_[1:], bytes([l1]) + p1_[1:]
+            else:
+                old, new = (bytes([l_]) + bytes(yr.getrandbits(8) for _ in range(4)) for l_ in (l0, l1))
+            ops.insert(yr.randint(0, len(ops)), {"op": "readdress", "pipe": q, "old": old.hex(), "new": new.hex(), "lead_us": yr.randint(0, 900),
+                                                 "plen": yr.randint(1, 32), "after": [hx(common.rand_payload(yr, yr.randint(1, 32))) for _ in range(yr.randint(0, 2))]})
     mode = "conc" if (tier == "thorough" and not grid and rng.random() < 0.4) else "seq"
     kr = stream(seed, "knobs")
     scn = {"seed": seed, "cfg": cfg, "ops": ops, "faults": faults, "mode": mode,
@@ -293,6 +312,71 @@ def _run(scn, cfg, w, res):
                 back = kept.pop(id(rx))      # ... and finds them again, in front of whatever arrives next
                 expected.extend(back)
                 outstanding = len(back)
+            continue
+        if op["op"] == "reconf":
+            if conc:
+                continue
+            drain_all()
+            outstanding = 0
+            sim.log("call", "T", "reconf", op["crc"], op["excursion"])
+            for side in op["order"]:
+                (tx if side == "t" else rx).crc = op["crc"]
+            if op["excursion"] == "rx":
+                rx.listen = False
+                sim.advance(int(0.4 * MS))
+                rx.listen = True
+            elif op["excursion"] == "tx" and id(tx) not in stale:
+                tx.listen = True
+                sim.advance(int(0.4 * MS))
+                tx.listen = False
+                # (pipe 0 may be one of this radio's reading pipes: back in TX mode the application names its target again, as after a turn)
+                n_ = cfg["aw"] if cfg.get("trunc_addr") else 5
+                tx.open_tx_pipe((fwd_addr if cur_pipe == cfg["pipe"] else unhx(cfg["alt"]["addr"])[:n_]) if fwd else rev_addr)
+            sim.count("crc_changed_at_run_time")
+            continue
+        if op["op"] == "readdress":
+            if conc or not fwd or id(rx) in kept:
+                continue
+            drain_all()
+            outstanding = 0
+            q = op["pipe"]
+            n_ = cfg["aw"] if cfg.get("trunc_addr") else 5
+            old, new = unhx(op["old"]), unhx(op["new"])
+            if q >= 2:
+                # pipes 2-5 share the upper bytes of whatever pipe 1 holds (the chip's reset value when the application never set it)
+                base = bytes(rr.a[0x0B][1:5])
+                old, new = old[:1] + base, new[:1] + base
+            if state.get("inj") is None:
+                state["inj"] = Injector(w, "INJ", channel=cfg["channel"], rate=cfg["rate"], aw=cfg["aw"], crc=cfg["crc"], esb=True, dpl=cfg["dyn"])
+            inj = state["inj"]
+            sim.log("call", "R", "readdress", q)
+            rx.listen = False
+            rx.open_rx_pipe(q, old[:n_])     # history: the pipe was used on another address and closed
+            rx.close_rx_pipe(q)
+            rx.listen = True
+            flag = {"stop": False, "n": 0}
+
+            def stream_():
+                while not flag["stop"] and flag["n"] < 300:
+                    raw = bytes([0xE0 | (flag["n"] & 15)]) * op["plen"]
+                    inj.send(old[: cfg["aw"]], common.expected_payload(cfg, raw), want_ack=False, settle=False)
+                    flag["n"] += 1
+            t_inj = sim.spawn("inj", stream_, w.make_mcu("I"))
+            sim.advance(op["lead_us"] * US)
+            rx.open_rx_pipe(q, new[:n_])
+            flag["stop"] = True
+            for _ in range(4000):
+                if t_inj.done:
+                    break
+                sim.advance(50 * US)
+            sim.count("readdressed_under_traffic")
+            sim.count("packets_to_old_address", flag["n"])
+            for b_ in op["after"]:
+                pl = common.expected_payload(cfg, unhx(b_))
+                inj.send(new[: cfg["aw"]], pl, want_ack=False)
+                expected.append((q, pl))
+                outstanding += 1
+            res.nontrivial = True
             continue
         if op["op"] == "load_ack":
             if conc or not cfg.get("ackpl"):
